@@ -21,6 +21,7 @@ def run(c):
     r3(c)
     r4(c)
     r5(c)
+    r6(c)
 
 
 def _is_put(node, qname):
@@ -259,3 +260,64 @@ def r5(c):
     sp = [n for n in walk_no_nested(ir) if isinstance(n, ast.For) and norm(n.iter) == "device_ids" and any(isinstance(x, ast.YieldFrom) for x in ast.walk(n))]
     ok = len(sp) == 1 and not [x for x in walk_no_nested(sp[0]) if isinstance(x, (ast.Break, ast.Continue, ast.Return))]
     c.check("C12.R5", ok, repo.loc(m, ir), "irun/single-process-arm", "the single-process arm does not yield for every id", key_text="single")
+
+
+def r6(c):
+    repo = c.repo
+    c.rule("C12.R6", "typestate over the multi-process loop of irun, second component: a result taken off done_queue (GOT) is handed to the consumer (a yield / yield from fed by "
+                     "the dequeued results) before the loop is left by `break` or starts its next iteration; only a `raise` may abandon it. invoke_retry either returns the "
+                     "task's result or raises on every path (falling off its end would deliver None as a success)")
+    m = repo.module(MOD)
+    fn = repo.func(MOD, "Parallel.irun", canon=False)
+    loops = [n for n in walk_no_nested(fn) if isinstance(n, ast.While) and any("_check_children" in norm(x) for x in ast.walk(n))]
+    if len(loops) != 1:
+        raise AnchorError("irun: polling loop not found")
+    loop = loops[0]
+    gets = [x for x in ast.walk(loop) if isinstance(x, ast.Call) and isinstance(x.func, ast.Attribute) and x.func.attr in ("get", "get_nowait") and norm(x.func.value) == "done_queue"]
+    if not gets:
+        raise AnchorError("irun: done_queue.get not found")
+    # names bound by the successful get
+    got_names = set()
+    for g in gets:
+        st = g
+        while st is not None and not isinstance(st, ast.stmt):
+            st = getattr(st, "_parent", None)
+        if isinstance(st, ast.Assign):
+            got_names |= {x.id for t in st.targets for x in ast.walk(t) if isinstance(x, ast.Name)}
+    bad = []
+
+    def on_stmt(node, st, ts):
+        cur = st
+        if isinstance(node, ast.ExceptHandler):
+            if node.type is not None and "Empty" in norm(node.type):
+                return ["none"]
+            return [cur]
+        if isinstance(node, ast.stmt) and any(x in gets for x in ast.walk(node)):
+            cur = "pending"
+        ys = [x for x in ast.walk(node) if isinstance(x, (ast.Yield, ast.YieldFrom))] if isinstance(node, ast.stmt) else []
+        if ys and any(isinstance(x, ast.Name) and x.id in got_names for y in ys for x in ast.walk(y)):
+            cur = "none"
+        if isinstance(node, ast.Break) and cur == "pending":
+            bad.append((node, "break"))
+        return [cur]
+
+    def may_raise(st):
+        return any(x in gets for x in ast.walk(st))
+    ts = Typestate(on_stmt, may_raise=may_raise)
+    res = ts._block(loop.body, {("none", frozenset())})
+    back = {rs for (rs, _f) in (res["fall"] | res["continue"])}
+    if "pending" in back:
+        bad.append((loop, "next iteration"))
+    c.count("functions", 2)
+    if bad:
+        node, how = bad[0]
+        c.violated("C12.R6", repo.loc(m, node), "irun/dequeued-result-delivered", f"a path from a successful done_queue.get reaches the {how} without yielding the dequeued results: that "
+                   "device id is never delivered (e.g. the `not pool` exit taken in the iteration that also read the last result)", key_text=f"dropped-{how.split()[0]}")
+    else:
+        c.holds("C12.R6", repo.loc(m, loop), "irun/dequeued-result-delivered", "every dequeued result is yielded before break / next iteration")
+    ir = repo.func(MOD, "invoke_retry", canon=False)
+    tsr = Typestate(lambda node, st, t_: [st])
+    rr = tsr.run(ir.body, "s")
+    ok = not rr["fall"]
+    c.check("C12.R6", ok, repo.loc(m, ir), "invoke_retry/returns-or-raises", "some path through invoke_retry falls off the end (returns None): a task that keeps failing with a connection error is "
+            "reported as a success with result None instead of a failure", key_text="falls-off")
